@@ -14,7 +14,9 @@ CONSTANTS Caps,         \* buffer capacities
           QTpl,         \* question templates  [ll, t, c]            (ll = label lengths of the name)
           RRTpl,        \* RR templates        [ll, t, c, ttl, rd]
           OptTpl,       \* OPT templates       [udp, ver, exrc, exfl, rd]
-          MaxOps
+          MaxOps,
+          Chain,        \* TRUE: only histories that repeat one kind of step (long runs: the 16-bit counters carry)
+          EmitFrom      \* emit only histories of at least this many steps
 VARIABLES cap, hist, msg, phase, alive,
           alt        \* for an "unspec" last step: the message a label-by-label encoder would give (else << >>)
 vars == <<cap, hist, msg, phase, alive, alt>>
@@ -24,7 +26,10 @@ SecPhase(sec) == CASE sec = "an" -> 2 [] sec = "ns" -> 3 [] sec = "ar" -> 4
 
 Init == cap \in Caps /\ hist = << >> /\ msg = << >> /\ phase = 0 /\ alive = TRUE /\ alt = << >>
 
+ChainOk(op) == IF ~Chain THEN TRUE ELSE IF Len(hist) < 2 THEN TRUE
+               ELSE (hist[Len(hist)].op = op.op /\ (IF op.op = "rr" THEN hist[Len(hist)].sec = op.sec ELSE TRUE))
 Record(op, r, ph) ==
+   /\ ChainOk(op)
    /\ hist' = Append(hist, op @@ [rc |-> r.rc, need |-> r.need])
    /\ msg' = IF r.rc = "ok" THEN r.msg ELSE msg
    /\ alt' = IF r.rc = "unspec" THEN r.msg ELSE << >>
@@ -92,6 +97,8 @@ WithRR(q) == q @@ [ttl |-> <<0, 300>>, rd |-> <<1, 2>>]
 BoundQ == {L63, L64, N253, N254, N255, A1}
 BoundRR == {WithRR(L63), WithRR(L64), WithRR(N253), WithRR(N254), WithRR(N255)}
 BoundOpt == {O0}
+ChainQ == {A1}
+ChainRR == {[ll |-> <<1>>, t |-> 1, c |-> 1, ttl |-> <<0, 1>>, rd |-> << >>]}
 
 \* Parse(Build(h)) = h
 ParseBack == Len(OkOps) > 0 => LET parsed == Parse(msg) IN
@@ -106,8 +113,10 @@ Fits == Len(msg) <= cap /\ Len(alt) <= cap
 Refusal == \A i \in 1..Len(hist) : hist[i].rc \in {"nospace", "fail"} => hist[i].need > cap
 NamesValid == \A i \in 1..Len(OkOps) : OkOps[i].op \in {"q", "rr"} => ValidHostName(OkOps[i].name)
 
+\* long runs: the (quadratic) read-back is only evaluated where the histories are emitted
+ChainInv == IF Len(hist) < EmitFrom THEN TRUE ELSE (ParseBack /\ Valid /\ Fits)
 last == hist[Len(hist)]
-Emit == PrintT(ToJson([cap |-> cap, ops |-> hist, msg |-> msg, alt |-> alt,
+Emit == Len(hist) < EmitFrom \/ PrintT(ToJson([cap |-> cap, ops |-> hist, msg |-> msg, alt |-> alt,
                        parsed |-> IF Len(hist) = 0 THEN Bad
                                   ELSE IF last.rc = "ok" THEN Parse(msg)
                                   ELSE IF last.rc = "unspec" THEN Parse(alt) ELSE Bad]))
